@@ -170,7 +170,7 @@ def cases(tier):
     # error and a kill; the keyspace must be coherent afterwards (the before-or-after question itself is C07's)
     for un in ("U10", "U8", "U9a"):
         names = list(CHECK.U()[un])
-        for first in (names if tier == "thorough" else names[::2]):
+        for first in names:
             out.append(("faults", un, [first], 2))
     return out
 
